@@ -7,12 +7,15 @@ import (
 	"encoding/json"
 	"flag"
 	"fmt"
+	"go/types"
 	"os"
 	"path/filepath"
 	"sort"
 	"strconv"
 	"strings"
 	"time"
+
+	"golang.org/x/tools/go/ssa"
 )
 
 type PropConfig struct {
@@ -364,6 +367,119 @@ func (x *Exec) verifyLemmas(prop string) {
 			continue
 		}
 		x.verifyLemma(l)
+	}
+	for _, c := range x.specs.chains {
+		if prop == "" || hasProp(c.Props, prop) {
+			x.verifyChain(c)
+		}
+	}
+}
+
+// verifyChain: the state-chain lemma. For every state f of the machine: from an arbitrary request satisfying f's
+// precondition, apply f's contract; the machine stops only in the final state; and on every edge Next == g (with
+// Err == nil, the condition under which statemachine.Run continues, handing over the request with Next = nil) the
+// precondition of g holds. With the trusted Run loop this is an induction over every run of the machine.
+func (x *Exec) verifyChain(c *ChainDef) {
+	pkgName := x.specs.chainPkg[c]
+	for _, f := range c.States {
+		x.verifyChainState(c, pkgName, f)
+	}
+}
+
+func (x *Exec) verifyChainState(c *ChainDef, pkgName, f string) {
+	keyOf := func(st string) string { return pkgName + "." + c.Name + "." + st }
+	name := "chain " + pkgName + "." + c.Name + "[" + f + "]"
+	x.cur = &Contract{Func: name, Props: c.Props}
+	x.curKey = name
+	x.facts = nil
+	namedFormulas = map[*Term]*Term{}
+	start := len(x.obls)
+	defer func() {
+		if r := recover(); r != nil {
+			if u, ok := r.(unsupported); ok {
+				x.obls = x.obls[:start]
+				x.obls = append(x.obls, &Obligation{Name: name + "#tool-limit", Func: name, Kind: "tool-limit", Failed: u.msg, Props: c.Props})
+				return
+			}
+			panic(r)
+		}
+	}()
+	conF := x.specs.contracts[keyOf(f)]
+	fnF := x.w.Funcs[keyOf(f)]
+	if conF == nil || fnF == nil {
+		x.obls = append(x.obls, &Obligation{Name: name + "#missing", Func: name, Kind: "missing", Failed: "state " + f + " has no contract or does not exist", Props: c.Props})
+		return
+	}
+	st := newState()
+	x.facts = append(x.facts, Ge(st.alloc, Int(1)))
+	var args []Value
+	for _, p := range fnF.Params {
+		args = append(args, x.freshVal(st, "arg_"+p.Name(), p.Type()))
+	}
+	entry := st.clone()
+	env := x.specEnvFor(conF, fnF.Signature, fnF.Pkg.Pkg, args, st, entry)
+	var pres []*Term
+	for _, r := range conF.Requires {
+		pres = append(pres, env.boolean(r.Expr))
+	}
+	x.assumePC(st, And(pres...))
+	entry = st.clone()
+	fr := &Frame{fn: fnF, info: analyzeFunc(fnF), regs: map[ssa.Value]Value{}, con: x.cur, entry: entry, params: args}
+	fr.top = fr
+	x.dry++ // the precondition of f is assumed, not re-proved
+	pcBefore := st.pc
+	_ = pcBefore
+	x.dry--
+	// apply f's contract: havoc its modifies clause, assume its postcondition
+	x.obls = append(x.obls, &Obligation{Name: name + "#vacuity[requires-sat]", Func: name, Kind: "canary", Facts: x.facts[:len(x.facts):len(x.facts)], PC: st.pc, Goal: False, Props: c.Props})
+	nObl := len(x.obls)
+	res := x.applyContract(fr, st, conF, fnF.Signature, args, "chain", keyOf(f))
+	// drop the (trivially true) precondition obligations applyContract produced
+	x.obls = x.obls[:nObl]
+	out := res.T
+	if out == nil || dtTab[out.Sort] == nil {
+		unsup("chain: state %s does not return a request struct", f)
+	}
+	reqT := fnF.Signature.Results().At(0).Type()
+	su := reqT.Underlying().(*types.Struct)
+	fErr, fNext := fieldIndex(su, "Err"), fieldIndex(su, "Next")
+	next := Acc(out, fNext)
+	errNil := Eq(Acc(Acc(out, fErr), 0), Int(0))
+	x.obls = append(x.obls, &Obligation{Name: name + "#vacuity[post-sat]", Func: name, Kind: "canary", Facts: x.facts[:len(x.facts):len(x.facts)], PC: st.pc, Goal: False, Props: c.Props})
+	recv := args[0]
+	if f != c.Final {
+		x.oblige(st, "chain", "continues", f, And(Not(Eq(Acc(next, 0), Int(0))), errNil), "only the final state stops the machine")
+		var known []*Term
+		for _, g := range c.States {
+			bf := x.boundMethod(fnF.Params[0].Type(), g)
+			if bf != nil {
+				known = append(known, Eq(Acc(next, 0), Int(int64(x.fnID(bf)))))
+			}
+		}
+		x.oblige(st, "chain", "known-state", f, Or(known...), "Next is one of the machine's states")
+	}
+	for _, g := range c.States {
+		conG := x.specs.contracts[keyOf(g)]
+		fnG := x.w.Funcs[keyOf(g)]
+		bf := x.boundMethod(fnF.Params[0].Type(), g)
+		if conG == nil || fnG == nil || bf == nil {
+			continue
+		}
+		target := Mk(sortFn, Int(int64(x.fnID(bf))), x.boundEnv(st, recv.T, fnF.Params[0].Type()))
+		gs := st.clone()
+		gs.pc = And(st.pc, Eq(next, target), errNil)
+		if gs.pc == False {
+			continue
+		}
+		argsG := []Value{recv, {T: Upd(out, fNext, NilFn())}}
+		envG := x.specEnvFor(conG, fnG.Signature, fnG.Pkg.Pkg, argsG, gs, gs)
+		for i, r := range conG.Requires {
+			lab := r.Label
+			if lab == "" {
+				lab = fmt.Sprint(i + 1)
+			}
+			x.oblige(gs, "edge", lab, f+"->"+g, envG.boolean(r.Expr), "postcondition of "+f+" on the edge to "+g+" implies this precondition of "+g)
+		}
 	}
 }
 
